@@ -48,3 +48,20 @@ pub mod shared {
         Ok((addr, IceSocketWrapper::SharedUdp(Arc::new(handle)), Box::new(reg)))
     }
 }
+
+/// Candidate pairs in the order `perform_connectivity_checks_async` checks them (after its sorts) (C16).
+pub mod pairs {
+    use crate::transports::ice::{IceCandidatePair, IceRole};
+    use std::net::SocketAddr;
+    use std::sync::Mutex;
+
+    static LOG: Mutex<Vec<Vec<(SocketAddr, SocketAddr, u64)>>> = Mutex::new(Vec::new());
+
+    pub fn record(pairs: &[IceCandidatePair], role: IceRole) {
+        LOG.lock().unwrap().push(pairs.iter().map(|p| (p.local.address, p.remote.address, p.priority(role))).collect());
+    }
+    /// recorded lists since the last call
+    pub fn take() -> Vec<Vec<(SocketAddr, SocketAddr, u64)>> {
+        std::mem::take(&mut *LOG.lock().unwrap())
+    }
+}
